@@ -4,6 +4,8 @@
  */
 
 
+use crate::encode::MAXIMUM_PACKET_SIZE;
+#[cfg(test)]
 use crate::encode::MAXIMUM_VARIABLE_LENGTH_INTEGER;
 use crate::error::{GneissError, GneissResult};
 use crate::logging::*;
@@ -264,7 +266,7 @@ impl Decoder {
         if let Ok(DecodeVliResult::Value(remaining_length, _)) = decode_vli_result {
             let mut maximum_size = context.maximum_packet_size;
             if maximum_size == 0 {
-                maximum_size = MAXIMUM_VARIABLE_LENGTH_INTEGER as u32;
+                maximum_size = MAXIMUM_PACKET_SIZE;
             }
 
             let total_packet_size = remaining_length + 1 + self.scratch.len() as u32;
